@@ -370,3 +370,30 @@ for ver in ("V1", "V2", "V3"):
     unit(f"verifier.verify_with_version[{ver}]", VF, "Verifier::verify_with_version",
          [("self", sym("self")), ("proof", sym("proof")), ("public_inputs", sym("public_inputs")),
           ("version", (lambda v=ver: VOpaque("PlonkVersion::" + v)))], c_verify_with_version, out_verify)
+
+
+# ------------------------------------------------------------------ transcript_label_static (std variant, inside cfg_if!)
+def c_label_static(it, recv, a):
+    """Returns a 'static slice with EXACTLY the bytes of `label`: either the cached slice stored under the key `label`
+    (cache invariant: every entry was inserted as (k, leak(k)), see the insert event below) or a fresh leak of a copy of
+    `label`, which is then cached under the key `label`."""
+    label = a[0]
+    cache = VOpaque("havoc:map#1")
+    it.ctx.exits.append(("return_if_some", VOpaque("get", [cache, label]), VOpaque("some_of", [VOpaque("get", [cache, label])])))
+    it.ctx.event("cache.insert", canon(label), canon(label))
+    return label
+
+
+def out_all(res, args, ctx):
+    return {"effects": list(ctx.log), "exits": list(ctx.exits), "result": res}
+
+
+LS_CONTRACTS = {
+    "Box::leak": lambda it, recv, a: a[0],                     # same bytes, 'static lifetime
+    ".to_vec": lambda it, recv, a: recv,                       # same bytes
+    ".into_boxed_slice": lambda it, recv, a: recv,             # same bytes
+    ".insert": lambda it, recv, a: (it.ctx.event("cache.insert", canon(a[0]), canon(a[1])), UNIT)[1],
+}
+u = unit("transcript.transcript_label_static", T, "transcript_label_static", [("label", sym("label"))], c_label_static, out_all,
+         trace_only=True, tracked=("label", "leaked", "cached"))
+u.extra_contracts = LS_CONTRACTS
